@@ -90,7 +90,7 @@ Definition key_eps : R := 15 / 32.
 
 (* the domain of the theorems.  Parameters: finite doubles, 0 <= orderingWidth <= 1 (F10 outside), |orderingY| <= 2
    (LegalizationParameters::check accepts [-0.2, 0.2]), |orderingHeight| <= 4 (check accepts everything: this bound
-   is a hypothesis the proof forces, see c11_float_order_refuted) *)
+   is a hypothesis the proof forces, see legalize_float_order_refuted: a tie at orderingHeight = 8) *)
 Definition order_params_ok (p : order_params_d) : Prop :=
   is_finite (opd_w p) = true /\ is_finite (opd_y p) = true /\ is_finite (opd_h p) = true /\
   0 <= B2R (opd_w p) <= 1 /\ Rabs (B2R (opd_y p)) <= 2 /\ Rabs (B2R (opd_h p)) <= 4.
@@ -103,13 +103,14 @@ Definition coords_small (c : circuit) : Prop :=
   forall k, In k (movable c) -> small_cell (leg_cell_of k).
 
 (* ------------------------------------------------------------------ witnesses (statements in the proof files) *)
-(* orderingHeight = 16 with a row 2^19 high: both keys are 2^23 + 2 (ties to even at ulp 1), the index decides *)
-Definition tie_rows : list row := [ {| rr := {| minX := 0; maxX := 8; minY := 0; maxY := 524288 |}; ro := oN |} ].
+(* orderingHeight = 8 with a row 2^20 - 1 high, orderingWidth 1/2, two unit-width cells at x = 10 (index 0) and x = 9
+   (index 1): 10.5 + 8388600 and 9.5 + 8388600 are both halfway between two binary32 numbers (ulp 1 from 2^23 on) and
+   both round to the even 8388610: the keys TIE, the index decides, the right cell comes first *)
+Definition tie_rows : list row := [ {| rr := {| minX := 0; maxX := 16; minY := 0; maxY := 1048575 |}; ro := oN |} ].
 Definition tie_cell (x : Z) : ccell :=
-  {| c_x := x; c_y := 0; c_w := 1; c_h := 524288; c_o := oN; c_pol := pANY; c_fixed := false; c_obs := true |}.
-Definition w_tie : circuit := {| rows := tie_rows; cells := [tie_cell 2; tie_cell 1] |}.
-Definition p_tie : order_params_d :=
-  {| opd_w := d_of_frac 1 2; opd_y := d_of_frac 0 1; opd_h := d_of_frac 16 1 |}.
+  {| c_x := x; c_y := 0; c_w := 1; c_h := 1048575; c_o := oN; c_pol := pANY; c_fixed := false; c_obs := true |}.
+Definition w_tie : circuit := {| rows := tie_rows; cells := [tie_cell 10; tie_cell 9] |}.
+Definition p_tie : order_params_d := {| opd_w := dhalf; opd_y := d_of_Z 0; opd_h := d_of_Z 8 |}.
 (* the default parameters (orderingWidth 0.2 -- not dyadic --, orderingY 0, orderingHeight -1) *)
 Definition pd_default : order_params_d :=
   {| opd_w := d_of_frac 1 5; opd_y := d_of_frac 0 1; opd_h := d_of_frac (-1) 1 |}.
